@@ -1000,15 +1000,24 @@ class Client():
         if self.redirects:
             redirect = self.redirects[-1]
             location = redirect['headers'].get('location')
+            if not location:
+                raise httping.InvalidURL("Redirect without location")
             path, sep, query = location.partition('?')
             path = unquote(path)
             if sep:
                 location = sep.join([path, query])
             else:
                 location = path
-            splits = urlsplit(location)
-            hostname = splits.hostname
-            port = splits.port
+            try:
+                splits = urlsplit(location)
+                hostname = splits.hostname
+                port = splits.port  # raises ValueError if not numeric or out of range
+            except ValueError as ex:
+                raise httping.InvalidURL("Invalid redirect location '{0}': {1}"
+                                         "".format(location, ex))
+            if not hostname:
+                raise httping.InvalidURL("Redirect location without host "
+                                         "'{0}'".format(location))
             scheme = splits.scheme
             scheme = 'https' if scheme.lower() == 'https' else 'http'
             if scheme == 'https':
@@ -1131,10 +1140,19 @@ class Client():
                                       ('errored', self.respondent.errored),
                                       ('error', self.respondent.error),
                                      ])
+                    redirected = False
                     if self.respondent.redirectable and self.respondent.redirectant:
                         self.redirects.append(copy.copy(response))
-                        self.redirect()
-                    else:
+                        try:
+                            self.redirect()
+                            redirected = True
+                        except (ValueError, httping.HTTPException) as ex:
+                            # bad or refused location so report instead of redirect
+                            self.respondent.redirectant = False
+                            response['errored'] = True
+                            response['error'] = str(ex)
+
+                    if not redirected:  # response done
                         if self.redirects:
                             response['redirects'] = copy.copy(self.redirects)
                         self.redirects = []
